@@ -89,7 +89,8 @@ def _wrap(enc, draw):
         return enc, False
     k = draw(st.integers(1, min(2, len(idx))))
     cut = sorted(draw(st.lists(st.sampled_from(idx), min_size=k, max_size=k, unique=True)))
-    ind = draw(st.sampled_from(["\n", "\n    ", "\n\t", "\r\n      "]))
+    # (a wrap may also leave a completely empty source line behind)
+    ind = draw(st.sampled_from(["\n", "\n    ", "\n\t", "\r\n      ", "\n\n    ", "\r\n\r\n  ", "\n\n"]))
     out = []
     last = 0
     for c in cut:
